@@ -95,7 +95,21 @@ pub fn ref_cast(kind: CastOpType, w: u32, u: u128, t: u32) -> Option<(u32, u128)
 
 fn check_bin(name: &str, op: BinOpType, wa: u32, ua: u128, wb: u32, ub: u128) -> Option<Value> {
     let (a, b) = (mk(wa, ua), mk(wb, ub));
-    let got = a.bin_op(op, &b);
+    // a panic of the real function on a well-sized input is a disagreement, not a crash of the search
+    let prev = std::panic::take_hook();
+    std::panic::set_hook(Box::new(|_| {}));
+    let caught = std::panic::catch_unwind(|| a.bin_op(op, &b));
+    std::panic::set_hook(prev);
+    let got = match caught {
+        Ok(g) => g,
+        Err(_) => {
+            return Some(json!({
+                "input": {"fn": "bin_op", "op": name, "wa": wa, "a": hex(ua), "wb": wb, "b": hex(ub)},
+                "observed": "panic",
+                "expected": match ref_bin(op, wa, ua, wb, ub) { Some((w, u)) => json!({"width": w, "value": hex(u)}), None => json!("Err (unknown)") },
+            }));
+        }
+    };
     let want = ref_bin(op, wa, ua, wb, ub);
     let unsupported = unsupported_bin(op, wa, ub);
     let bad = match (&got, want) {
@@ -130,12 +144,23 @@ pub fn search(twin: &str, case: Option<&str>, seed: u64) -> Option<Value> {
                 for ua in 0..256u128 { for ub in 0..256u128 {
                     if let Some(v) = check_bin(name, *op, 8, ua, 8, ub) { return Some(v); }
                 }}
+                let is_shift = matches!(op, BinOpType::IntLeft | BinOpType::IntRight | BinOpType::IntSRight);
                 for w in [16u32, 32, 64] {
                     for _ in 0..20000 {
                         let (ua, ub) = (rng.interesting(w), rng.interesting(w));
                         let wb = widths_for(*op, w);
-                        let ub = if matches!(op, BinOpType::IntLeft | BinOpType::IntRight | BinOpType::IntSRight) && rng.next() % 2 == 0 { ub % (w as u128 + 3) } else { ub };
+                        let ub = if is_shift && rng.next() % 2 == 0 { ub % (w as u128 + 3) } else { ub };
                         if let Some(v) = check_bin(name, *op, w, ua, wb, ub) { return Some(v); }
+                    }
+                }
+                if is_shift || *op == BinOpType::Piece {
+                    // P-Code allows a shift amount (and the lower piece) of a different size than the value
+                    for (wa, wb) in [(8u32, 16u32), (8, 64), (16, 8), (32, 8), (64, 8), (64, 16), (16, 64)] {
+                        for _ in 0..6000 {
+                            let ua = rng.interesting(wa);
+                            let ub = if is_shift { (rng.next() % (wa.max(wb) as u64 + 4)) as u128 & mask(wb) } else { rng.interesting(wb) };
+                            if let Some(v) = check_bin(name, *op, wa, ua, wb, ub) { return Some(v); }
+                        }
                     }
                 }
             }
